@@ -189,10 +189,10 @@ def run():
     uni, ust = common.tlc_eval_json("Dump_Universe", cfg="Dump_Universe_Q" if QUICK else "Dump_Universe_T")
     chk.add_tlc(ust)
     from harness.props.c03 import mutation_layers
-    for a in rng.sample(uni, 200 if QUICK else 4000):
+    for a in rng.sample(uni, 200 if QUICK else 12000):
         cases.append(drive(rng.choice(mutation_layers(a, rng, maxm=2)), rng))
     nuni = len(cases)
-    for i in range(1200 if QUICK else 20000):
+    for i in range(1200 if QUICK else 80000):
         a = gen.random_abstract(rng, N=rng.randint(2, 7), K=rng.randint(1, 5), max_edges=12, nsites=4, nmuts=4)
         cases.append(drive(a, rng))
     for c in [c for c in cases if "error" in c]:
